@@ -23,7 +23,7 @@ class PropagationCheck:
         if n_override:
             n = n_override
         return driver.run_check(self.pid, tier, seed, E, {"ncfg": ncfg, "k": k}, n, wall, "exploration", self.rule,
-                                self.assumptions, COMPONENTS, per_task_s=180, chunk=2)
+                                self.assumptions, COMPONENTS, per_task_s=180 * (5 if tier == "thorough" else 1), chunk=2)
 
     def replay(self, path: str, quiet: bool) -> int:
         from .engines import propagation_check as E
